@@ -411,6 +411,75 @@ type mop struct {
 	inPlace bool
 }
 
+// pairPass: sharing with something OUTSIDE the pool (a package-level empty collection, a cached result, a
+// per-type scratch object) cannot be part of a state key, so the breadth-first search merges "fresh empty
+// result" with "result that shares a hidden global" and may never put two results of the same call into one
+// program. This pass therefore runs EVERY program of two operations (no de-duplication) followed by one
+// revealing step - an operation that writes in place (Set on a set; Remove on the interface{} stream) or
+// works in place before restoring (SortByIndex) - on each collection of the pool.
+func pairPass(r *lib.Report, family string, trans *int64) {
+	sops := streamOps()
+	var reveal []int
+	for i, op := range sops {
+		if strings.HasPrefix(op.name, "SortByIndex") || (op.inPlaceIface && family == "interface{}") {
+			reveal = append(reveal, i)
+		}
+	}
+	for o1, op1 := range sops {
+		for r1 := 0; r1 < 3; r1++ {
+			for a1 := 0; a1 < 1+2*op1.arity; a1++ {
+				for o2, op2 := range sops {
+					for r2 := 0; r2 < 4; r2++ {
+						for a2 := 0; a2 < 1+3*op2.arity; a2++ {
+							for _, o3 := range reveal {
+								for r3 := 3; r3 < 5; r3++ { // the revealing step on either result
+									np := []step{{o1, r1, a1}, {o2, r2, a2}, {o3, r3, 0}}
+									*trans++
+									if fail, clause, _ := runStreams(family, sops, np); fail != "" {
+										r.Violation(fmt.Sprintf("C04|stream-%s|%s", family, clause), fail, map[string]interface{}{"family": family, "program": progString(sops, np), "failure": fail, "initial_pool": fmt.Sprintf("%v; each step appends its result to the pool", streamRoots)})
+									}
+								}
+							}
+						}
+					}
+				}
+			}
+		}
+	}
+	mops := setOps()
+	setOp := -1
+	for i, op := range mops {
+		if op.inPlace {
+			setOp = i
+		}
+	}
+	for o1, op1 := range mops {
+		if op1.inPlace {
+			continue
+		}
+		for r1 := 0; r1 < 3; r1++ {
+			for a1 := 0; a1 < 1+2*op1.arity; a1++ {
+				for o2, op2 := range mops {
+					if op2.inPlace {
+						continue
+					}
+					for r2 := 0; r2 < 4; r2++ {
+						for a2 := 0; a2 < 1+3*op2.arity; a2++ {
+							for r3 := 3; r3 < 5; r3++ {
+								np := []step{{o1, r1, a1}, {o2, r2, a2}, {setOp, r3, 0}}
+								*trans++
+								if fail, clause, _ := runSets(family, mops, np); fail != "" {
+									r.Violation(fmt.Sprintf("C04|set-%s|%s", family, clause), fail, map[string]interface{}{"family": family, "failure": fail, "initial_pool": "#0={1:10 2:20} #1={2:7 3:30} #2={}"})
+								}
+							}
+						}
+					}
+				}
+			}
+		}
+	}
+}
+
 func cpm(m map[int]int) map[int]int {
 	o := map[int]int{}
 	for k, v := range m {
@@ -687,6 +756,7 @@ func main() {
 		streamRoots = short
 		searchSets(r, fam, md, &states, &trans, &samples)
 		searchStreamSets(r, fam, ssd, &states, &trans, &samples)
+		pairPass(r, fam, &trans)
 	}
 	constructors(r, &states, &trans)
 	payloadStreams(r, &states, &trans)
